@@ -44,3 +44,69 @@ package index
 //@   ensures len(g.hosts) == old(len(g.hosts)) - g.hostSize
 //@   ensures forall(k, 0, len(g.hosts), g.hosts[k] == old(g.hosts[k]))
 //@   ensures hgwf(g.hosts, g.hostSize)
+
+// ---------------------------------------------------------------------------
+// C07: reference-time re-basing when an index is merged into a writer.
+// Absolute time of a stream = FirstPacketTime(s)*10^9 + FirstPacketTimeNS (mod 2^64).
+// After AddIndex the old streams of the writer keep their absolute times under the new
+// reference second, and the streams copied from the reader get theirs from the reader's
+// reference second; the same shift is applied to first and last packet time.
+// ---------------------------------------------------------------------------
+//@ bv uint64
+
+// time arithmetic on whole seconds (assumed contracts of package time; valid while the values
+// involved are far from the int64 nanosecond range, i.e. within +-292 years of each other)
+//@ uninterp unixsec(t any) uint64
+//@ extern time.Unix(sec, nsec) t
+//@   ensures implies(nsec == 0, unixsec(t) == uint64(sec))
+//@ extern (time.Time).Add(t, d) r
+//@   ensures unixsec(r) == unixsec(t) + uint64(d) / 1000000000
+//@ extern (time.Time).Unix(t) r
+//@   ensures uint64(r) == unixsec(t)
+
+// Region contract: the tail of AddIndex from the computation of the new reference second
+// (writer.go "newFirstPacketTimeS := ...") to the final return.
+//@ func (*Writer).AddIndex
+//@   prop C07
+//@   start before call time.Unix#1
+//@   nosafety
+//@   noframe
+//@   requires 0 <= streamCountBefore && streamCountBefore <= len(w.streams)
+//@   ensures oldkept: forall(k, 0, streamCountBefore, w.streams[k].FirstPacketTimeNS == old(w.streams[k].FirstPacketTimeNS) + (old(w.header.FirstPacketTime) - w.header.FirstPacketTime) * 1000000000 && \
+//@       w.streams[k].LastPacketTimeNS == old(w.streams[k].LastPacketTimeNS) + (old(w.header.FirstPacketTime) - w.header.FirstPacketTime) * 1000000000)
+//@   ensures newkept: forall(k, streamCountBefore, len(w.streams), w.streams[k].FirstPacketTimeNS == old(w.streams[k].FirstPacketTimeNS) + (r.header.FirstPacketTime - w.header.FirstPacketTime) * 1000000000 && \
+//@       w.streams[k].LastPacketTimeNS == old(w.streams[k].LastPacketTimeNS) + (r.header.FirstPacketTime - w.header.FirstPacketTime) * 1000000000)
+//@   ensures refmin: implies(streamCountBefore != 0, w.header.FirstPacketTime <= old(w.header.FirstPacketTime))
+//@   ensures len(w.streams) == old(len(w.streams))
+//@   loop 11 invariant -1 <= rangeindex && rangeindex < streamCountBefore && streamCountBefore <= len(w.streams) && len(w.streams) == old(len(w.streams))
+//@   loop 11 invariant forall(k, 0, rangeindex+1, w.streams[k].FirstPacketTimeNS == old(w.streams[k].FirstPacketTimeNS) + oldTimeDiffNS && w.streams[k].LastPacketTimeNS == old(w.streams[k].LastPacketTimeNS) + oldTimeDiffNS)
+//@   loop 11 invariant forall(k, rangeindex+1, len(w.streams), w.streams[k].FirstPacketTimeNS == old(w.streams[k].FirstPacketTimeNS) && w.streams[k].LastPacketTimeNS == old(w.streams[k].LastPacketTimeNS))
+//@   loop 11 decreases streamCountBefore - rangeindex
+//@   loop 12 invariant -1 <= rangeindex && rangeindex < len(w.streams) - streamCountBefore && len(w.streams) == old(len(w.streams))
+//@   loop 12 invariant forall(k, 0, streamCountBefore, w.streams[k].FirstPacketTimeNS == old(w.streams[k].FirstPacketTimeNS) + oldTimeDiffNS && w.streams[k].LastPacketTimeNS == old(w.streams[k].LastPacketTimeNS) + oldTimeDiffNS)
+//@   loop 12 invariant forall(k, streamCountBefore, streamCountBefore+rangeindex+1, w.streams[k].FirstPacketTimeNS == old(w.streams[k].FirstPacketTimeNS) + newTimeDiffNS && w.streams[k].LastPacketTimeNS == old(w.streams[k].LastPacketTimeNS) + newTimeDiffNS)
+//@   loop 12 invariant forall(k, streamCountBefore+rangeindex+1, len(w.streams), w.streams[k].FirstPacketTimeNS == old(w.streams[k].FirstPacketTimeNS) && w.streams[k].LastPacketTimeNS == old(w.streams[k].LastPacketTimeNS))
+//@   loop 12 decreases len(w.streams) - streamCountBefore - rangeindex
+
+//@ extern (time.Time).Sub(t, u) d
+//@   ensures uint64(d) == (unixsec(t) - unixsec(u)) * 1000000000
+//@ extern (time.Duration).Nanoseconds(d) r
+//@   ensures r == int64(d)
+
+// Region contract: the re-basing step at the start of AddStream (writer.go "firstPacketTs := ..."
+// up to the computation of referenceTime): when the new stream starts before the reference second,
+// every stream already in the writer keeps its absolute first/last packet time.
+//@ func (*Writer).AddStream
+//@   prop C07
+//@   start before call (time.Time).Unix#1
+//@   stop before call time.Unix#1
+//@   nosafety
+//@   noframe
+//@   ensures kept: implies(len(w.packets) != 0, forall(k, 0, len(w.streams), w.streams[k].FirstPacketTimeNS == old(w.streams[k].FirstPacketTimeNS) + (old(w.header.FirstPacketTime) - w.header.FirstPacketTime) * 1000000000 && \
+//@       w.streams[k].LastPacketTimeNS == old(w.streams[k].LastPacketTimeNS) + (old(w.header.FirstPacketTime) - w.header.FirstPacketTime) * 1000000000))
+//@   ensures refmin: implies(len(w.packets) != 0, w.header.FirstPacketTime <= old(w.header.FirstPacketTime))
+//@   ensures len(w.streams) == old(len(w.streams))
+//@   loop 1 invariant -1 <= rangeindex && rangeindex < len(w.streams) && len(w.streams) == old(len(w.streams))
+//@   loop 1 invariant forall(k, 0, rangeindex+1, w.streams[k].FirstPacketTimeNS == old(w.streams[k].FirstPacketTimeNS) + diff && w.streams[k].LastPacketTimeNS == old(w.streams[k].LastPacketTimeNS) + diff)
+//@   loop 1 invariant forall(k, rangeindex+1, len(w.streams), w.streams[k].FirstPacketTimeNS == old(w.streams[k].FirstPacketTimeNS) && w.streams[k].LastPacketTimeNS == old(w.streams[k].LastPacketTimeNS))
+//@   loop 1 decreases len(w.streams) - rangeindex
